@@ -207,6 +207,9 @@ class NMAP(Application, discriminator="nmap"):
         :rtype: Union[List[IPV4Address], List[str]]
         """
         active_nodes = []
+        if not self._can_perform_network_action():
+            # an NMAP that is not running (or has no usable interface) scans nothing and sends nothing
+            return active_nodes
         if show:
             table = PrettyTable(["IP Address", "Can Ping"])
             table.align = "l"
@@ -352,6 +355,9 @@ class NMAP(Application, discriminator="nmap"):
         :return: A dictionary mapping IP addresses to protocols and lists of open ports.
         :rtype: Dict[IPv4Address, Dict[IPProtocol, List[Port]]]
         """
+        if not self._can_perform_network_action():
+            # an NMAP that is not running (or has no usable interface) scans nothing and sends nothing
+            return {}
         ip_addresses = self._explode_ip_address_network_array(target_ip_address)
 
         if is_valid_port(target_port):
